@@ -34,6 +34,17 @@ func (c *TickClock) Peek() int64 {
 // TickOf converts a time back to its tick number.
 func TickOf(t time.Time) int64 { return int64(t.Sub(Epoch) / time.Second) }
 
+// ZeroTimeTick stands for Go's zero time (year 1), which is too far from the epoch for a Duration: TickOf saturates there.
+var ZeroTimeTick = TickOf(time.Time{})
+
+// TimeOfTick is the inverse of TickOf.
+func TimeOfTick(tick int64) time.Time {
+	if tick == ZeroTimeTick {
+		return time.Time{}
+	}
+	return Epoch.Add(time.Duration(tick) * time.Second)
+}
+
 // StaticRNG is an io.Reader producing a fixed byte: ids generated from it are predictable, so a collection can be
 // pre-filled with exactly the candidates GenerateUniqueId will try.
 type StaticRNG struct{ B byte }
